@@ -11,17 +11,22 @@
      "PathFromLastAttr"  the dotted path of a target that is not rooted at a Name is just its attribute names,
                          so `lower(x).upper()` / `'abc'.upper()` look like the whitelisted helper `upper`
      "GenVarCallable"    a generator variable bound to a callable value passes the namespace-callable test
-     "GenVarShadowsCtor" a generator variable NAMED like a whitelisted field type passes the whitelist test *)
+     "GenVarShadowsCtor" a generator variable NAMED like a whitelisted field type passes the whitelist test
+     "ResolveAfterArgs"  the call target is looked up AFTER the arguments were evaluated: an argument that advances a
+                         suspended generator whose loop variable is named like the target re-binds the name in between
+                         (`any(string(any(g)) for g in [(1 for string in [r.c.strip])])`)  (sensitivity)
+     "RootNameOnly"      only the ROOT of a dotted target is tested against the namespace callables, so `str.upper(x)`,
+                         `str.format(...)` -- methods reached through a whitelisted name -- are invoked (sensitivity) *)
 EXTENDS Naturals, Sequences, FiniteSets, TLC
 CONSTANT Dev    \* subset of {"PathFromLastAttr", "GenVarCallable"}
 \* ---- name classes in the interpreter namespace (self.data) ----
-Helpers   == {"lower", "upper"}            \* FUNCTION_WHITELIST representatives
+Helpers   == {"lower", "upper", "fields"}  \* FUNCTION_WHITELIST representatives; `fields` is the one helper that is bound anew for every record
 Builtins4 == {"str", "any"}                \* str/repr/any/all
 DataCallables == Helpers \cup Builtins4     \* names n with callable(self.data.get(n))
 NotAllowedNames == {"len", "open"}         \* builtins that are not in the namespace
 Roots     == {"net"}                       \* field-type tree roots (DynamicFieldtypeModule)
 CtorPaths == {<<"net", "ipaddress">>, <<"string">>}      \* WHITELIST paths (dotted and single-segment)
-GenVars   == {"f", "string"}               \* generator variable names: a fresh name, and one that shadows a field type
+GenVars   == {"f", "string", "fields"}     \* generator variable names: a fresh name, one that shadows a field type, one that shadows a helper
 \* ---- attribute name classes ----
 PlainMeth == {"strip"}                     \* a method whose name is not a namespace callable
 ShadowMeth == {"upper"}                    \* a method whose name equals a whitelisted helper's name
@@ -29,7 +34,7 @@ Dunder    == {"__class__", "__x"}           \* every name that STARTS with two u
 Attrs == PlainMeth \cup ShadowMeth \cup Dunder \cup {"s", "ipaddress", "fl", "o"}     \* "fl": a mutable (list) value of the record; "o": a value that is not text
 \* ---- target shapes (node.func) ----
 \* base of an attribute chain: Name, call result, constant, parenthesised operator expression
-Bases == {[b |-> "name", n |-> n] : n \in {"r", "net"} \cup GenVars \cup Helpers \cup NotAllowedNames}
+Bases == {[b |-> "name", n |-> n] : n \in {"r", "net"} \cup GenVars \cup Helpers \cup Builtins4 \cup NotAllowedNames}
            \cup {[b |-> "callres"], [b |-> "const"], [b |-> "paren"]}
 Chains == {<<>>} \cup {<<x>> : x \in Attrs} \cup {<<x, y>> : x \in Attrs, y \in Attrs}
 \* call = TRUE: the shape is the target of a call; call = FALSE: it is only read (attribute access without a call)
@@ -39,8 +44,11 @@ Targets == {[base |-> b, chain |-> c, call |-> k] : b \in Bases, c \in Chains, k
 \* which generator variable (bound to a callable canary) is in scope, if any; "f_op": the enclosing generator
 \* expression is consumed by an operator ('x in (... for f in ...)') instead of any()/all()
 \* "net_val": the variable is called `net` -- the ROOT of the dotted constructors -- and is bound to a VALUE of the record
-InGen == {"none", "f_op", "net_val"} \cup GenVars
-VarOf(g) == IF g = "f_op" THEN "f" ELSE IF g = "net_val" THEN "net" ELSE g
+\* "late_string": the enclosing generator's variable `g` holds a SUSPENDED generator whose own loop variable is called `string`
+\*                and is bound to a callable canary; the call's argument `any(g)` advances it -- so the name `string` is a
+\*                whitelisted constructor when the call is decided and a canary once the arguments have been evaluated
+InGen == {"none", "f_op", "net_val", "late_string"} \cup GenVars
+VarOf(g) == IF g = "f_op" THEN "f" ELSE IF g = "net_val" THEN "net" ELSE IF g = "late_string" THEN "g" ELSE g
 \* ---- what the Call branch decides ----
 SyntaxOK(t) == t.base.b \notin {"lambda", "subscript"} /\ ~(t.chain = <<>> /\ t.base.b \in {"callres", "const", "paren"})
 \* resolve_attr_path: attrs (reversed back) + root name if the chain bottoms out in a Name
@@ -60,11 +68,13 @@ Policy(t, ingen) ==
     ELSE IF t.base.b = "name" /\ t.base.n = VarOf(ingen)
          THEN \/ ("GenVarCallable" \in Dev /\ t.chain = <<>>)
               \/ ("GenVarShadowsCtor" \in Dev /\ (<<t.base.n>> \o t.chain) \in CtorPaths)
+    ELSE IF "RootNameOnly" \in Dev /\ t.base.b = "name" /\ t.base.n \in DataCallables THEN TRUE
     ELSE IF "PathFromLastAttr" \in Dev THEN PolicyAsBuilt(t, ingen) ELSE PolicyIntended(t, ingen)
 \* ---- what evaluating node.func then yields (only reached when Policy holds) ----
 \* classes of callable objects
 Resolve(t, ingen) ==
     IF t.base.b = "name" /\ t.base.n = VarOf(ingen) THEN "canary-callable"
+    ELSE IF "ResolveAfterArgs" \in Dev /\ ingen = "late_string" /\ t.base.b = "name" /\ t.base.n = "string" /\ t.chain = <<>> THEN "canary-callable"
     ELSE IF t.chain = <<>> THEN
         (IF t.base.n \in Helpers THEN "helper" ELSE IF t.base.n \in Builtins4 THEN "builtin4"
          ELSE IF <<t.base.n>> \in CtorPaths THEN "ctor" ELSE "other")
@@ -79,8 +89,10 @@ ReadOutcome(t, ingen) ==
     ELSE IF t.base.b = "name" /\ ~NameKnown(t.base.n, ingen) THEN "refused"
     ELSE IF HasDunder(t) THEN "refused"
     ELSE "read"
+\* a generator expression whose variable would overwrite a name of the namespace (a helper, str/any) is refused as a whole
 Outcome(t, ingen) ==
-    IF ~t.call THEN ReadOutcome(t, ingen)
+    IF VarOf(ingen) \in DataCallables THEN "refused"
+    ELSE IF ~t.call THEN ReadOutcome(t, ingen)
     ELSE IF ~SyntaxOK(t) THEN "refused"
     ELSE IF ~Policy(t, ingen) THEN "refused"
     ELSE IF HasDunder(t) THEN "refused"                \* Attribute branch raises before getattr
